@@ -288,5 +288,11 @@ def r7_traversal_order(chk: Check) -> None:
     chk.decide(any(last_attr(c) == "transform" and len(c.args) >= 2 and dotted(c.args[1]) == "to_json_schema" for c in body_calls(rec_entry)), "C01.R7", rec_entry, "to_json_schema_recursive = transform(schema, to_json_schema, ...)", "the recursive conversion no longer goes through transform", rec_entry.loc())
 
 
+def rfwd_forwarding(chk: Check) -> None:
+    from . import shared
+
+    shared.forwarding_rule(chk, "C01.FWD", ('specs/openapi/_hypothesis.py:', 'specs/openapi/negative/', 'specs/openapi/converter.py:', 'specs/openapi/schemas.py:BaseOpenAPISchema.get_case_strategy', 'schemas.py:BaseSchema.as_strategy', 'schemas.py:APIOperationMap.as_strategy'), "generation settings / strategy options", 5)
+
+
 def rules(tier: str) -> list:  # type: ignore[type-arg]
-    return [r1_generator_plumbing, r2_length_keywords, r3_property_stripping, r4_path_location, r5_filters_only_narrow, r6_token_kinds_agree, r7_traversal_order]
+    return [r1_generator_plumbing, r2_length_keywords, r3_property_stripping, r4_path_location, r5_filters_only_narrow, r6_token_kinds_agree, r7_traversal_order, rfwd_forwarding]
